@@ -55,6 +55,8 @@ class Mat:
             a.append(e["xflag"])
         if e["x"] != "U":
             a += rnd.choice([["-DX"], ["-D", "X"], ["-DX=1"]])
+        if e.get("hdr", "U") != "U":
+            a += ["-DHDR=" + render.val_text(e["hdr"])]
         for r in e["idirs"]:
             p = spell_dir(r["d"])
             if r["sys"]:
